@@ -4,6 +4,7 @@ package main
 
 import (
 	"encoding/json"
+	"flag"
 	"fmt"
 	"io"
 	"os"
@@ -31,7 +32,8 @@ type Pure struct {
 	TotalBurst    int32  `json:"totalBurst"`
 	Allocated     int32  `json:"allocated"`
 	UpstreamLevel int32  `json:"upstreamLevel"`
-	Current       int32  `json:"current"`
+	Current       int32  `json:"current"`  // the quota the reporter says it holds
+	Recorded      int32  `json:"recorded"` // the quota on record for it
 	Used          int32  `json:"used"`
 	Level         int32  `json:"level"`
 	Clients       int    `json:"clients"`
@@ -78,6 +80,7 @@ func implPure(p Pure) Ans {
 			proxyv1alpha1.RateLimitItemConfiguration{Name: "s", LimitItemDetail: detail(p.TokenBucket, p.Total, p.TotalBurst)},
 			proxyv1alpha1.RateLimitItemStatus{Name: "s", LimitItemDetail: detail(p.TokenBucket, p.Allocated, 0), RequestLevel: p.UpstreamLevel},
 			proxyv1alpha1.RateLimitItemConfiguration{Name: "s", Strategy: proxyv1alpha1.GlobalAllocateLimit, LimitItemDetail: detail(p.TokenBucket, p.Current, 0)},
+			proxyv1alpha1.RateLimitItemConfiguration{Name: "s", Strategy: proxyv1alpha1.GlobalAllocateLimit, LimitItemDetail: detail(p.TokenBucket, p.Recorded, 0)},
 			proxyv1alpha1.RateLimitItemStatus{Name: "s", LimitItemDetail: detail(p.TokenBucket, p.Used, 0), RequestLevel: p.Level},
 			p.Clients)
 		n, b := quotaOf(res.LimitItemDetail)
@@ -136,9 +139,9 @@ func runPure(c *rig.Ctx, p Pure, record bool) bool {
 		return true
 	}
 	if p.Total >= 1 {
-		if _, bad := judge(c, p.Total, p.TotalBurst, p.Allocated, p.Current, *impl.Next, *impl.Burst, p.TokenBucket); bad != "" {
-			return fail("judge", "c07."+bad, fmt.Sprintf("answered quota breaks [%s]: total=%d burst=%d allocated=%d current=%d used=%d level=%d upstreamLevel=%d clients=%d -> %s",
-				bad, p.Total, p.TotalBurst, p.Allocated, p.Current, p.Used, p.Level, p.UpstreamLevel, p.Clients, impl))
+		if _, bad := judge(c, p.Total, p.TotalBurst, p.Allocated, p.Recorded, *impl.Next, *impl.Burst, p.TokenBucket); bad != "" {
+			return fail("judge", "c07."+bad, fmt.Sprintf("answered quota breaks [%s]: total=%d burst=%d allocated=%d recorded=%d reported=%d used=%d level=%d upstreamLevel=%d clients=%d -> %s",
+				bad, p.Total, p.TotalBurst, p.Allocated, p.Recorded, p.Current, p.Used, p.Level, p.UpstreamLevel, p.Clients, impl))
 		}
 	}
 	if impl.String() != m.Float.String() {
@@ -171,6 +174,9 @@ func genPure(c *rig.Ctx) Pure {
 		return int32(v)
 	}
 	pickAmount := func(max int64) int32 {
+		if max > 1<<31-1 {
+			max = 1<<31 - 1
+		}
 		switch r.Intn(8) {
 		case 0:
 			return 0
@@ -221,6 +227,18 @@ func genPure(c *rig.Ctx) Pure {
 		p.Current = pickAmount(int64(p.Allocated))
 		if p.Current > p.Allocated {
 			p.Current = p.Allocated
+		}
+	}
+	// the quota on record: what the reporter says (an instance whose report matches its record), or something else
+	// (record cleaned up: 0; an answer was lost: any other value within the recorded sum)
+	p.Recorded = p.Current
+	switch r.Intn(6) {
+	case 0:
+		p.Recorded = 0
+	case 1:
+		p.Recorded = pickAmount(int64(p.Allocated))
+		if p.Recorded > p.Allocated {
+			p.Recorded = p.Allocated
 		}
 	}
 	p.Used = pickAmount(int64(p.Current) + int64(p.Current)/2)
@@ -433,15 +451,18 @@ func runHistory(c *rig.Ctx, h History, record bool) bool {
 			continue
 		}
 		if op.Op == "report" && o.Next != nil && h.Honest {
-			cur := int32(0)
+			// the quotas on record just before this report: the reporter's, and their sum (the sum kept in the .state
+			// condition may be stale after a deletion; the property is about the quotas on record)
+			cur, sum := int32(0), int64(0)
 			for _, q := range prev.Quotas {
 				if int(q[0]) == op.I {
 					cur = int32(q[1])
 				}
+				sum += q[1]
 			}
-			if _, bad := judge(c, total, tburst, prev.RecSum, cur, *o.Next, *o.Burst, h.TokenBucket); bad != "" {
-				return fail("judge", "c07."+bad, fmt.Sprintf("op %d: report of instance %d (quota on record %d, recorded sum %d, limit %d) answered %d/%d: breaks [%s]",
-					k, op.I, cur, prev.RecSum, total, *o.Next, *o.Burst, bad), nil)
+			if _, bad := judge(c, total, tburst, int32(sum), cur, *o.Next, *o.Burst, h.TokenBucket); bad != "" {
+				return fail("judge", "c07."+bad, fmt.Sprintf("op %d: report of instance %d claiming %d (quota on record %d, quotas on record sum to %d, limit %d) answered %d/%d: breaks [%s]",
+					k, op.I, *op.Claim, cur, sum, total, *o.Next, *o.Burst, bad), nil)
 			}
 		}
 		if o.State != nil {
@@ -575,6 +596,10 @@ func runAny(c *rig.Ctx, raw json.RawMessage, record bool) bool {
 }
 
 func main() {
+	fs := flag.NewFlagSet("klog", flag.ContinueOnError)
+	klog.InitFlags(fs)
+	fs.Set("logtostderr", "false")
+	fs.Set("stderrthreshold", "FATAL")
 	klog.SetOutput(io.Discard)
 	rig.Main("C07", func(c *rig.Ctx) {
 		c.SetRule("pure cases: one calculateNextQuota call on (total, burst, recorded sum, upstream level, current quota, used, level, clients, type) drawn around every threshold of the function (totals 1..2^31-1, sums within/at/above the limit, quotas 0/1/percent floor/half/limit, levels around 0/50/70/95/100/150, clients 0..1000); history cases: 1-40 ops (report/delete/setLimit/clients) by 1-6 instances through the real rateLimiter.UpdateRateLimitConditionStatus with the local store; distinct = distinct canonical case; non-trivial = total >= 1 and the strategy branch is not the identity (pure) / at least 2 reports (history)")
